@@ -306,7 +306,7 @@ PROPS["C09"] = {
         "assumed away (statement silent): an option name directly followed by another option, by `--` or by the end of the line; a value-taking option given twice",
         "f32/f64 and the wider integer types are outside the claim",
     ],
-    "harnesses": [H("c09_derive::n%d::%s" % (n, v), tier=("both" if (n == 5 or (v == "p1_exit" and n <= 5)) else "thorough"), cfg=(["vp_thorough"] if n == 6 else []), bounds="%s, every well-formed token buffer of exactly %d bytes" % (d, n), timeout=3000, mem=8)
+    "harnesses": [H("c09_derive::n%d::%s" % (n, v), tier=("both" if ((v.startswith("p1_") and v != "p1_exit" and n == 4) or (v.startswith("p2_") and n == 3) or (v == "p1_exit" and n <= 5)) else "thorough"), cfg=(["vp_thorough"] if n == 6 else []), bounds="%s, every well-formed token buffer of exactly %d bytes" % (d, n), timeout=3000, mem=8)
                   for n in range(0, 7)
                   for (v, d) in [("p1_exit", "unit variant"),
                                  ("p1_led", "positional u8 + Option<u8> option (-l/--lv) + flag with generated short and explicit long (-v/--loud)"),
@@ -393,7 +393,9 @@ def _c03():
         for h in (0, 1, 2):
             cfg = ["vp_n%d" % n, "vp_h%d" % h]
             b = "N=%d, H=%d" % (n, h)
-            for k in ["key_backspace", "key_forward", "key_back", "key_up", "key_down", "key_tab", "key_char1", "key_char2", "api_write_set_prompt", "api_build"] + ["key_enter_v%d" % v for v in range(0, n + 1)]:
+            # with a non-empty history buffer of 2 bytes the Enter oracles do not fit into memory: plain Enter there
+            enters = ["key_enter_v%d" % v for v in range(0, n + 1)] if h < 2 else ["enter_plain_v%d" % v for v in range(0, n + 1)]
+            for k in ["key_backspace", "key_forward", "key_back", "key_up", "key_down", "key_tab", "key_char1", "key_char2", "api_write_set_prompt", "api_build"] + enters:
                 d = dict(cfg=list(cfg), tags=["C03"], tier=("both" if n == h else "thorough"), bounds="%s: %s from ANY CliInv state; only Kani's own checks (panic, overflow, bounds, pointer validity, unchecked preconditions) are counted" % (b, k), timeout=1500, mem=6)
                 if "char" in k:
                     d["nodebug"] = True
